@@ -175,6 +175,10 @@ func tapSubscribeAny(a any, cb func(), ctx context.Context, rec *Recorder) (ro.S
 }
 
 func runTeardownCase(c *Case) string {
+	return quickGuard(func() string { return runTeardownCase1(c) }, "res "+c.id+" harness-timeout")
+}
+
+func runTeardownCase1(c *Case) string {
 	setup := c.get("setup", "plain")
 	end := c.get("end", "unsub")
 	pan := parsePan(c.get("pan", "-"))
